@@ -16,7 +16,8 @@ contract(f"{SB}::BaseScheduler.__init__",
          ensures=["len(self.samplers) == len(samplers)",
                   "forall(range(0, len(samplers)), lambda i: self.samplers[i] is samplers[i])",
                   "self.random_state == random_state"],
-         modifies=["self.*"],
+         # (precise frame: subclass constructors assign their own fields BEFORE calling this one)
+         modifies=["self._samplers", "self._BaseSeedable__random_state", "self._BaseSeedable__random_generator"],
          notes="BaseSeedable.__init__ dispatches to the scheduler's own _set_random_state, which reseeds the (opaque) "
                "samplers; sampler-internal state is not part of this contract (see C01)")
 
@@ -48,3 +49,43 @@ contract(f"{C}::Calibrator.__validate_samplers_and_scheduler_constructor_args",
                   "and len(result.samplers) == len(samplers) and "
                   "forall(range(0, len(samplers)), lambda i: result.samplers[i] is samplers[i]))"],
          modifies=[])
+
+# ---- RL scheduler: the bootstrap sampler (C09: "a history-free bootstrap sampler (Halton, added if absent)", "only
+# samplers of the supplied set are used") -----------------------------------------------------------------------------
+from pyvc.api import klass as _klass  # noqa: E402
+
+H_ = "black_it/samplers/halton.py"
+RL_ = "black_it/schedulers/rl/rl_scheduler.py"
+contract(f"{H_}::HaltonSampler.__init__",
+         params={"batch_size": "int", "random_state": "opt[int]", "max_deduplication_passes": "int"},
+         requires=["batch_size >= 1", "max_deduplication_passes >= 0"], props=["C09"],
+         ensures=["self.batch_size == batch_size", "self.max_deduplication_passes == max_deduplication_passes"],
+         modifies=["self.*"])
+contract(f"{RL_}::RLScheduler._add_or_get_bootstrap_sampler", params={"samplers": "seq[opaque:BaseSampler]"},
+         returns="tuple[seq[opaque:BaseSampler],int]", props=["C09"],
+         ensures=[
+             # the designated bootstrap sampler is a member of the returned line-up and IS a Halton sampler
+             "0 <= result[1] and result[1] < len(result[0])",
+             "type(result[0][result[1]]).__name__ == 'HaltonSampler'",
+             # the line-up is the supplied one, with at most one sampler appended
+             "len(samplers) <= len(result[0]) and len(result[0]) <= len(samplers) + 1",
+             "forall(range(0, len(samplers)), lambda i: result[0][i] is samplers[i])",
+             # appended only if absent - and then it is a Halton sampler of batch size 1 at the end
+             "implies(exists(range(0, len(samplers)), lambda i: type(samplers[i]).__name__ == 'HaltonSampler'), "
+             "len(result[0]) == len(samplers))",
+             "implies(len(result[0]) == len(samplers) + 1, result[1] == len(samplers) and result[0][len(samplers)].batch_size == 1)",
+         ], modifies=[])
+
+_klass("CalibrationEnv", fields={"_out_queue": "opaque:QueueActions", "_in_queue": "opaque:QueueOutcomes"})
+contract(f"{RL_}::RLScheduler.__init__",
+         params={"samplers": "seq[opaque:BaseSampler]", "agent": "opaque:Agent", "env": "obj:CalibrationEnv",
+                 "random_state": "opt[int]"},
+         requires=["len(samplers) >= 1"], props=["C09", "C10"],
+         # (the class invariant - valid bootstrap index designating a Halton sampler - is an obligation at the exit)
+         ensures=["len(samplers) <= len(self.samplers) and len(self.samplers) <= len(samplers) + 1",
+                  # only samplers of the supplied set are used (plus, at most, the appended bootstrap sampler)
+                  "forall(range(0, len(samplers)), lambda i: self.samplers[i] is samplers[i])",
+                  "self._stopped and self._agent_thread is None and self._best_loss is None",
+                  "self._agent is agent and self._env is env",
+                  "self._in_queue is env._out_queue and self._out_queue is env._in_queue"],
+         modifies=["self.*"])
